@@ -592,6 +592,13 @@ fn zo_vec<T: ZoS, V: VIo<T, N> + Zero + One, const N: usize>(idx: u64, cx: &mut 
     let all_one = a.iter().all(|x| x.is_one());
     check_eq!(cx, <V as Zero>::is_zero(&v), all_zero, "{}<{}>::is_zero({:?})", V::NAME, T::NAME, a);
     check_eq!(cx, <V as One>::is_one(&v), all_one, "{}<{}>::is_one({:?})", V::NAME, T::NAME, a);
+    // the in-place trait entry points (provided methods an impl may override), on an arbitrary receiver
+    let mut w = V::mk(&a);
+    <V as Zero>::set_zero(&mut w);
+    check!(cx, w.rd().iter().all(|x| x.same(T::zero())), "{}<{}>: Zero::set_zero on {:?} left {:?}", V::NAME, T::NAME, a, w.rd());
+    let mut w = V::mk(&a);
+    <V as One>::set_one(&mut w);
+    check!(cx, w.rd().iter().all(|x| x.same(T::one())), "{}<{}>: One::set_one on {:?} left {:?}", V::NAME, T::NAME, a, w.rd());
     cx.label(if all_zero { "all-zero" } else if bg == 0 { "one-lane-nonzero" } else { "nonzero" });
     if all_one { cx.label("all-one"); }
     cx.set_nontrivial(bg != 2);
@@ -630,6 +637,24 @@ pub fn zo_mat<T: ZoS + num_traits::MulAdd<T, T, Output = T>, M: MatN<T, N> + Zer
     let mut f = [[T::one(); N]; N];
     f[i][j] = T::zero();
     check!(cx, !<M as Zero>::is_zero(&M::from_arr(&f)), "{}x{} matrix (col-major: {}) is_zero({:?})", N, N, M::COL_MAJOR, f);
+    // One::is_one: the identity with element (i,j) replaced is one iff the replacement equals the identity's element there
+    let mut g = id;
+    g[i][j] = val;
+    check_eq!(cx, <M as One>::is_one(&M::from_arr(&g)), val == id[i][j], "{}x{} matrix (col-major: {}) is_one({:?})", N, N, M::COL_MAJOR, g);
+    // in-place entry points (provided trait methods an impl may override) on receivers that are neither zero nor diagonal
+    let mut h = [[T::zero(); N]; N];
+    for r in 0..N { for c in 0..N { h[r][c] = from_small::<T>(2 + (r * N + c) % 7); } }
+    h[i][j] = val;
+    for (src, what) in [(&e, "single non-zero element"), (&f, "all ones but one"), (&g, "identity but one"), (&h, "dense")] {
+        let mut m = M::from_arr(src);
+        <M as Zero>::set_zero(&mut m);
+        let got = m.to_arr();
+        check!(cx, (0..N).all(|r| same_arr(&got[r], &zero[r])), "{}x{} matrix (col-major: {}) Zero::set_zero on {} {:?} left {:?}", N, N, M::COL_MAJOR, what, src, got);
+        let mut m = M::from_arr(src);
+        <M as One>::set_one(&mut m);
+        let got = m.to_arr();
+        check!(cx, (0..N).all(|r| same_arr(&got[r], &id[r])), "{}x{} matrix (col-major: {}) One::set_one on {} {:?} left {:?}, want the identity", N, N, M::COL_MAJOR, what, src, got);
+    }
     cx.label(if val.is_zero() { "all-zero" } else { "one-element-nonzero" });
     cx.nontrivial();
     Ok(())
